@@ -87,11 +87,16 @@ Definition stmt_scope (c : catalog) (stmt : node) : option scope :=
     else if String.eqb k "UpdateStmt" then kid "Relation" stmt :: search (is_kind "RangeVar") (kid "FromClause" stmt)
     else if String.eqb k "DeleteStmt" then kid "Relation" stmt :: search (is_kind "RangeVar") (kid "UsingClause" stmt)
     else [kid "Relation" stmt] in
-  fold_right (fun rv acc =>
-    match acc, pg_relation c [] rv with
-    | Some sc, POk cols => Some (mkSI (visible_name rv) cols :: sc)
-    | _, _ => None
-    end) (Some []) rels.
+  match fold_right (fun rv acc =>
+          match acc, pg_relation c [] rv with
+          | Some sc, POk cols => Some (mkSI (visible_name rv) cols :: sc)
+          | _, _ => None
+          end) (Some []) rels with
+  | Some sc =>
+      (* two relations visible under one name: PostgreSQL rejects the statement (42712), nothing to judge *)
+      if nodup_str (map si_name sc) then Some sc else None
+  | None => None
+  end.
 
 Definition expected_of (x : sccol) : option (string * string * bool * bool) :=
   match sc_src x with
